@@ -66,7 +66,7 @@ type Case struct {
 	Pack string `json:"pack,omitempty"`
 }
 
-var names = []string{"a", "b.txt", "with space", "дир-目录", ".hidden", "Makefile", strings.Repeat("long-name-", 11), "x_y", "é"}
+var names = []string{"a", "b.txt", "with space", "дир-目录", ".hidden", "Makefile", strings.Repeat("long-name-", 11), "x_y", "é", "..data", "..2024_05_01", "...", "a..b"}
 var fileModes = []uint32{0o644, 0o600, 0o755, 0o444, 0o400, 0o711, 0o666, 0o664}
 var dirModes = []uint32{0o755, 0o750, 0o700, 0o775, 0o777}
 
